@@ -59,15 +59,22 @@ def work(run, part, parts):
         key = H.pw_bytes(rng, klen, "binary") if i % 4 else bytes([rng.randrange(256)]) * klen
         digits = rng.choice([6, 7, 8, 9, 10])
         period = rng.choice([1, 2, 7, 29, 30, 31, 60, 3600, rng.randint(1, 3600)])
-        kind = rng.choice(["int", "int", "float", "naive", "aware", "boundary", "boundary-1", "big"])
+        kind = rng.choice(["int", "int", "float", "naive", "aware", "boundary", "boundary-1", "big", "zero", "huge"])
         if kind == "big":
             t = rng.randrange(2 ** 31, 2 ** 40)
+        elif kind == "zero":
+            t = 0                                    # the epoch itself (as a number, a float, or a date-time) is a time like any other
+        elif kind == "huge":
+            t = rng.choice([2 ** 53, 2 ** 53 + 1, 2 ** 54 + period - 1, 2 ** 60 + 7, rng.randrange(2 ** 53, 2 ** 62)])   # beyond the exact range of floats
         elif kind.startswith("boundary"):
             t = rng.randrange(0, 2 ** 31 // period) * period + (-1 if kind.endswith("-1") else 0)
             t = max(t, 0)
         else:
             t = rng.randrange(0, 2 ** 31)
         arg = t
+        if kind == "zero":
+            arg = rng.choice([0, 0.0, 0.5, datetime.datetime(1970, 1, 1), datetime.datetime(1970, 1, 1, tzinfo=datetime.timezone.utc),
+                              datetime.datetime(1970, 1, 1, 5, 30, tzinfo=datetime.timezone(datetime.timedelta(hours=5, minutes=30)))])
         if kind == "float":
             arg = t + rng.random() * 0.999
         elif kind == "naive":
@@ -167,7 +174,7 @@ def body(run):
     run.require("generate", 300000)
     run.require("key_spellings", 20000)
     run.require("object_reuse", 10000)
-    for k in ("aware", "naive", "float", "boundary", "boundary-1", "big"):
+    for k in ("aware", "naive", "float", "boundary", "boundary-1", "big", "zero", "huge"):
         run.require(f"kind:{k}", 100)
     run.assumptions += ["reference = RFC 4226 dynamic truncation over stdlib hmac, validated on the RFC 4226/6238 vectors at the start of every shard",
                         "naive date-times are UTC (as documented); sub-second parts are discarded"]
